@@ -73,6 +73,10 @@ def d(t, x):
             return d(u, x) / u
         if n == "sqrt":
             return d(u, x) / (2 * t)
+        if n == "Phi":  # standard normal CDF: d Phi(u) = phi(u) du, phi(u) = exp(-u^2/2) / sqrt(2 pi)
+            EXP = z3.Function("exp", z3.RealSort(), z3.RealSort())
+            SQRT = z3.Function("sqrt", z3.RealSort(), z3.RealSort())
+            return EXP(-(u * u) / 2) / SQRT(2 * z3.Real("pi")) * d(u, x)
         if n == "sin":
             return z3.Function("cos", z3.RealSort(), z3.RealSort())(u) * d(u, x)
         if n == "cos":
